@@ -246,13 +246,23 @@ Definition EQUALS (e2 : Z) (w : world) (t u : nat) : option (world * option bool
        end.
 
 (* ------------------------------------------------------------------ SET *)
-(* case s1 && s2: s1.SET(s2); case s1: s1.SetFloat64(0); default: obj.AT(idx).SET(s2) *)
+(* switch { case s1.ptr != nil && s2.ptr != nil: s1.SET(s2)
+            case s1.ptr != nil                  : s1.SetFloat64(0)
+            default                             : obj.AT(it.Index()).SET(s2) } *)
 Fixpoint SET_LOOP (fuel : nat) (w : world) (t : nat) (j : jointC) : option (world * bool) :=
   if jointC_ok j then
     match fuel with
     | O => None
     | S fu =>
-        match wr w t (cidx j) (cs1 j) (match cs2 j with Some b => b | None => 0 end) with
+        match (match cs1 j, cs2 j with
+               | Some l, Some b => Some (seth w (hset (hp w) l b))
+               | Some l, None => Some (seth w (hset (hp w) l 0))
+               | None, s2 =>
+                   match at_ (hp w) (getv w t) (cidx j) with
+                   | Some (h', v', l) => Some (seth (setv w t v') (hset h' l (match s2 with Some b => b | None => 0 end)))
+                   | None => None
+                   end
+               end) with
         | None => Some (w, false)
         | Some w1 =>
             match jointC_next w1 t j with
@@ -267,7 +277,7 @@ Definition SETV (w : world) (t u : nat) : option (world * bool) :=
   if negb (dim (getv w t) =? dim (getv w u)) then Some (w, false) else
   match jointC_begin w t u with
   | None => None
-  | Some (w1, j) => SET_LOOP (jfuel w t (OS u)) w1 t j
+  | Some (w1, j) => SET_LOOP (lfuel w t) w1 t j
   end.
 
 (* ----------------------------------------------------------- dense twins *)
